@@ -562,9 +562,9 @@ func (rl *Shell) shellTransposeWords() {
 	rl.viSelectAShellWord()
 	transposeWith, wbpos, wepos, _ := rl.selection.Pop()
 
-	// We might be on the first word of the line,
-	// in which case we don't do anything.
-	if wepos > tbpos {
+	// We might be on the first word of the line (or there might be
+	// no word at all), in which case we don't do anything.
+	if tbpos < 0 || wbpos < 0 || wepos > tbpos {
 		rl.cursor.Set(startPos)
 		return
 	}
